@@ -18,6 +18,7 @@ def make_summary(F):
     S.pre.update({k: v for k, v in PRES.items()})
     install_pres(S)
     S.inv.update(INVS)
+    S.strong_inv = set(INVS)
     return S
 
 
@@ -332,7 +333,14 @@ def inv_peek(an, sp):
     return [le(add(lin(OE), lin(c=10)), lin(RE)), le(lin(RE), lin(L)), le(lin(c=12), lin(L)), le(lin(CU), lin(OE))], {OE: 'owner_end', RE: 'rr_end'}
 
 
+def inv_writer(an, sp):
+    L = lin('len:(*%s.octets)' % sp)
+    C, A, Li, RS = (lin('P:%s.%s' % (sp, f)) for f in ('cursor', 'available', 'limit', 'rr_start'))
+    return [le(lin(c=12), RS), le(RS, C), le(C, A), le(A, Li), le(Li, L)], {}
+
+
 INVS = {
+    'message::writer::Writer': inv_writer,
     'message::reader::Reader': inv_reader,
     'message::reader::PeekRr': inv_peek,
 }
@@ -819,3 +827,45 @@ def vec_pieces_bound(F, fn, b, limit=65535):
         total += got
         pieces.append('slice<=%d' % got)
     return total <= limit and bool(pieces), 'pieces %s, total <= %d' % (pieces, total)
+
+
+def check_store_preserves(R, F, S, rule, sty, inv_terms, fields, exceptions=None, scope=None):
+    """Strong invariant: every single store to one of `fields` of struct `sty` re-establishes every invariant constraint
+    that mentions the stored field (with the stored value substituted, the other fields at their current values).
+    inv_terms(sp) -> [(lhs_expr, rhs_expr, text)] meaning lhs <= rhs, over atoms built from the self place string sp."""
+    exceptions = exceptions or {}
+    n = 0
+    counts = {}
+    for f in fields:
+        for fn, b, i, st in field_stores(F, sty, f, scope):
+            n += 1
+            k = (fn.gpath, f)
+            counts[k] = counts.get(k, 0) + 1
+            key = '%s|%s-store@%s#%d' % (sty, f, fn.gpath, counts[k])
+            an = Analyzer(fn, F, S)
+            base = fn.canon_str({'l': st['lhs']['l'], 'p': st['lhs']['p'][:-1], 'ty': ''})
+            an._site = (b, i)
+            new = an.ev_rv(st['rv'], 0, (b, i))
+            atom = 'P:%s.%s' % (base, f)
+            ok = new is not None
+            unmet = 'stored value is not linear'
+            if ok:
+                goals = []
+                for lhs, rhs, txt in inv_terms(base):
+                    if atom not in lhs and atom not in rhs:
+                        continue
+                    def sub(e):
+                        e = dict(e)
+                        c = e.pop(atom, 0)
+                        return add(e, scale(new, c)) if c else e
+                    goals.append(le(sub(lhs), sub(rhs)))
+                ok, unmet = prove_at(an, b, i, goals)
+            ex = exceptions.get((fn.gpath, f, counts[k])) or exceptions.get((fn.gpath, f, '*'))
+            why = 'the store keeps the invariant'
+            if not ok and ex:
+                reason, prem = ex
+                pok, pdet = prem(F, fn, b)
+                ok = pok
+                why = 'justified exception: %s [premises %s: %s]' % (reason, 'hold' if pok else 'FAILED', pdet)
+            R.require(ok, rule, key, fn.where(b), why, 'cannot prove that the store of %s keeps the invariant: %s%s' % (f, unmet, ('; ' + why) if ex else ''))
+    return n
